@@ -982,6 +982,8 @@ class Engine(ExprMixin, CallMixin):
                 and isinstance(test.comparators[0], ast.Constant) and test.comparators[0].value is None:
             if (isinstance(test.ops[0], ast.IsNot) and truth) or (isinstance(test.ops[0], ast.Is) and not truth):
                 return {test.left.id}
+        if isinstance(test, ast.Name) and truth:
+            return {test.id}  # `if x:` taken: x is truthy, and None is falsy, so x is not None
         return set()
 
     def narrow(self, test, truth, st):
